@@ -58,10 +58,10 @@ CHECKS = {
         "level": "exploration", "floor": 10,
         "rule": "item files of finished multi-replica histories are delivered one at a time to an open replica in adversarial orders (blocks newest-first then packs; packs then blocks; rotated) and random permutations, with a refresh after every file; for every prefix: "
                 "per-block status (hook) == membership in the reference model's causally complete closure, objects/winners/conflicts/heads == reference(closure), incremental state == fresh Melda::new on the same storage; after the last file == the source replica. "
-                "Engine histories with partial file copies add status-vs-closure checks after every op. non-trivial = some prefix held back a block that a later prefix applied." + DISTINCT,
+                "Engine histories with partial file copies add status-vs-closure checks after every op. A dedicated scenario delivers a pack-less block (its object was deduplicated against a pack whose block the author did not hold) to a replica that knows the content only from its object cache (staged, then unstaged) or from an unreferenced staged object: the block must stay held back and the live replica must equal a fresh one. non-trivial = some prefix held back a block that a later prefix applied." + DISTINCT,
         "assumptions": ASSUME_COMMON,
         "jobs": [mode("delivery-conflict", "c02", (480, 6000), args={"profile": "conflict", "steps": 36}), mode("delivery-graph", "c02", (288, 4000), args={"profile": "graph", "steps": 40}),
-                 engine("partial-copies", "graph", "C02", (1280, 30000))],
+                 engine("partial-copies", "graph", "C02", (1280, 30000)), mode("cache-only-objects", "c02cache", (480, 12000))],
     },
     "C03": {
         "level": "exploration", "floor": 20,
@@ -199,7 +199,7 @@ CHECKS = {
                 "after every op the state digest (objects, winners, conflicts, revision sets, document, staging) and graph digest (head indices, statuses, parent counts; no block names) are logged and all sequences must be identical. The trace hook records in which order and on which worker the parallel sections "
                 "reached their objects; a script counts as non-trivial only if its children showed >=2 distinct interleavings. thorough adds Miri on single-replica scripts. distinct = script index.",
         "assumptions": ASSUME_COMMON,
-        "jobs": c18_jobs() + [{"name": "miri", "external": "miri", "tier": "thorough", "scripts": 12, "regexfree": True}],
+        "jobs": c18_jobs() + [mode("cache-only-objects", "c02cache", (240, 6000)),{"name": "miri", "external": "miri", "tier": "thorough", "scripts": 12, "regexfree": True}],
     },
     "C19": {
         "level": "exploration", "floor": 20,
